@@ -142,11 +142,14 @@ fn may_match_ellipsis_impl<'p, 't: 'p, D: Doc + 't>(
     return Some(ControlFlow::Continue);
   }
   loop {
+    // this is only a trial: the node is matched again by the caller once the ellipsis is
+    // settled. Run it on a copy so that a failed trial leaves no bindings behind.
+    let mut trial = agg.clone();
     if matches!(
       match_node_impl(
         goal_children.peek().unwrap(),
         cand_children.peek().unwrap(),
-        agg,
+        &mut trial,
         strictness,
       ),
       MatchOneNode::MatchedBoth
